@@ -201,6 +201,7 @@ def run_stream(stream, tier, seed, workdir):
             diffs.append({'case': c, 'impl': i, 'model': m})
     rep['diffs'] = diffs
     rep['n_cases'] = len(cases)
+    rep['all_cases'] = cases if diffs else []
     return rep, None
 
 
